@@ -101,7 +101,7 @@ def gen(seed, tier, layouts):
         kinds = [kind for (_, kind, _) in lay["bounds"]]
         for idx, kind in enumerate(kinds):
             if kind in ("pc", "pr", "bad"):
-                for f in "SCDX":
+                for f in ("SCD" if sc in ("thrd", "thru") else "SCDX"):
                     cases.append("sc=%s k=%d f=%s tgt=0 nw=1" % (sc, ends[idx], f))
                     stats["faults"]["nw"] = stats["faults"].get("nw", 0) + 1
         stats["per_scenario"][sc] = {"N": N, "offsets": len(ks), "cases": len(cases) - n0}
